@@ -13,6 +13,8 @@ threads perform arbitrary access sequences consistent with the classification, i
                          no unguarded access. Finite table, `decide`.
 * `C11_inventory_sync_covered` — the shared units the inventory of `Spec/C11.lean` allows instances to write are
                          backed by synchronised access sites of that table.
+* `C11_inventory_ro_covered` — the scenario components the inventory classes read-only (postprocessors, preprocessors,
+                         variable storage) have only frozen read sites in that table.
 * `C11_drf_table`      — hence threads that pass through those access sites in any order and interleaving are
                          data-race free (the table is the hypothesis that licenses the classes `sharedSync` / `sharedRO`).
 * `C11_unguarded_counterexample`, `C11_prefix_table_counterexample`, `C11_shared_write_counterexample` — the code
@@ -165,6 +167,19 @@ theorem C11_inventory_sync_covered :
   decide
 
 example : inventorySyncObjs.length ≥ 3 := by decide
+
+/-- **C11_inventory_ro_covered**: the fields of the scenario components (postprocessors, preprocessors, the variable
+storage) behind the units the inventory classes read-only have access sites in the regenerated table, and every one of
+them is a read of a field that no instance-facing method writes (`frozen`): the class `sharedRO` of those units is what
+the current source says. -/
+theorem C11_inventory_ro_covered :
+    Pandora.Spec.C11.roBacked.all (fun (l, o) =>
+      (match Pandora.Spec.C11.classOf l with
+       | some .ro => true
+       | _ => false) &&
+      (let rows := Pandora.Spec.C11.rowsOf Pandora.Gen.Locks.table o
+       !rows.isEmpty && rows.all fun r => r.frozen && !r.write)) = true := by
+  decide
 
 /-- the lock facts as they were extracted from the code BEFORE the two `fix:` commits on the random sources -/
 def tablePreFix : List C11LockRow := [
